@@ -36,8 +36,9 @@ class VerdictOracle(rc.ReportStream):
             return "non-covered-file-examined: %s" % sorted(seen - covered)
         why = self.judge(case, got, False)
         if why is not None and rc.has_choke(case) and self.judge(case, got, True) is None:
-            # a tag on which the expression parser fails internally: naming the file as unreadable (what the tool does) and
-            # taking nothing from the file (as for any other unparseable expression) are both accepted
+            # a tag on which the library's expression parser fails internally: taking nothing from the file (as for any other
+            # unparseable expression: what the tool does since fixes/expression-parser-internal-failures.diff, and what the
+            # model is told) and naming the file as unreadable (what it did before) are both accepted
             return None
         return why
 
